@@ -11,7 +11,7 @@ from ..common import pick, run_cases, sk
 ID = "C07"
 LEVEL = "exploration"
 TECHNIQUE = "statistical envelope monitor: distinct random keys are added incrementally to real sketches and query() is read at every point of a cardinality grid incl. the regime switch points; small n is judged by an occupancy (linear counting) bound, larger n by k*1.04/sqrt(m) with k = 9"
-RULE = ("case = (p, seed, key stream): n runs over a log grid from 0 to 40*2^p (16*2^p for p >= 13 in the quick tier) plus "
+RULE = ("case = (p, seed, key stream): n runs over a log grid from 0 to 40*2^p (24*2^p for p >= 13 in the quick tier) plus "
         "threshold[p]*{0.9,0.97,1,1.03,1.1} and 5m*{0.9,...,1.1}; each grid point is one envelope evaluation; non-trivial = the stream "
         "went past the linear-counting regime; distinct = by (p, seed, stream); thorough tier: one p=16 stream of 5.6*10^8 distinct keys "
         "(12-byte windows of random 40 MB strings through add_ngram), evaluated every 4*10^7")
@@ -188,7 +188,9 @@ def gen_cases(ctx):
             yield {"p": p, "seed": int(rng.integers(0, 2**63)) * 2 + 1, "stream": int(rng.integers(0, 2**62)), "top_mult": 6.5, "dense": True}
             if q:
                 n_seeds = 8 if p <= 10 else (4 if p <= 12 else 1)
-                top = 40 if p <= 12 else 16
+                # every register must fill for the third regime to be observed: at n = 24 m the chance that one of 2^16 registers is
+                # still empty is m * exp(-24) = 2.5e-6 (at 16 m it was 0.7 %, and one seed in a hundred came back inconclusive)
+                top = 40 if p <= 12 else 24
             else:
                 n_seeds = 4 if p <= 12 else 1
                 top = 40
